@@ -2913,6 +2913,105 @@ def rule_vecsort(toks, fired, names):
     return toks
 
 
+def rule_vecsortr(toks, fired, names):
+    """vecsortr:NAME|..  :  NAME.sort();  ->  usize_sort(NAME);     twin of vecsort for a `&mut Vec<usize>` PARAMETER / reference local
+    (unit chordal_reverse: `clique_buffer.sort()` in add_blocks_with_sparsity_pattern).  The method call auto-dereferences the reference
+    and re-borrows the Vec mutably; passing the reference itself to `usize_sort(v: &mut Vec<usize>)` is the same implicit re-borrow."""
+    i = 0
+    while i < len(toks):
+        mc = _method_call_at(toks, i, "sort")
+        if mc is not None and next_code(toks, mc[1] + 1) == mc[2]:
+            r = prev_code(toks, mc[0] - 1)
+            pv = prev_code(toks, r - 1)
+            if toks[r].kind == "ident" and toks[r].text in names and (pv < 0 or toks[pv].text in (";", "{", "}")):
+                new = synth("usize_sort(") + [toks[r]] + synth(")")
+                toks = toks[:r] + new + toks[mc[2] + 1:]
+                fired["vecsortr"] = fired.get("vecsortr", 0) + 1
+                i = r + 1
+                continue
+        i += 1
+    return toks
+
+
+def rule_rangesort(toks, fired, names):
+    """rangesort:NAME|..  :  NAME[A..B].sort();  ->  usize_sort_range(&mut NAME, A, B);     (unit chordal_sntree: `p[k..(k + n)].sort()`)
+    for the listed local Vec<usize> variables.  Sorting the sub-slice A..B in place: the unit declares `usize_sort_range` with the ASSUMED
+    documented contract of the std sort applied to that window (panics unless A <= B <= len: kept as its precondition; the window becomes
+    sorted_of(window), everything outside it is untouched)."""
+    i = 0
+    while i < len(toks):
+        mc = _method_call_at(toks, i, "sort")
+        if mc is not None and next_code(toks, mc[1] + 1) == mc[2]:
+            rb = prev_code(toks, mc[0] - 1)
+            if toks[rb].text == "]":
+                depth = 0
+                k = rb
+                while k >= 0:
+                    if toks[k].kind == "punct" and toks[k].text in CLOSE: depth += 1
+                    if toks[k].kind == "punct" and toks[k].text in OPEN:
+                        depth -= 1
+                        if depth == 0: break
+                    k -= 1
+                r = prev_code(toks, k - 1)
+                pv = prev_code(toks, r - 1)
+                if (k > 0 and toks[k].text == "[" and toks[r].kind == "ident" and toks[r].text in names
+                        and (pv < 0 or toks[pv].text in (";", "{", "}"))):
+                    inner = toks[k + 1:rb]
+                    d = 0
+                    cut = None
+                    for q, t in enumerate(inner):
+                        if t.kind == "punct" and t.text in OPEN: d += 1
+                        elif t.kind == "punct" and t.text in CLOSE: d -= 1
+                        elif t.kind == "punct" and t.text == ".." and d == 0: cut = q
+                    if cut is not None and _strip_ws(inner[:cut]) and _strip_ws(inner[cut + 1:]):
+                        new = (synth("usize_sort_range(&mut ") + [toks[r]] + synth(", ") + _strip_ws(inner[:cut]) + synth(", ")
+                               + _strip_ws(inner[cut + 1:]) + synth(")"))
+                        toks = toks[:r] + new + toks[mc[2] + 1:]
+                        fired["rangesort"] = fired.get("rangesort", 0) + 1
+                        i = r + 1
+                        continue
+        i += 1
+    return toks
+
+
+def rule_setextend(toks, fired, names):
+    """setextend:NAME|..  :  NAME.extend(A..B)  ->  NAME.extend_range(A, B)   and   NAME.extend(Y.iter())  ->  NAME.extend_slice(Y)
+    (unit chordal_sntree: `snode.extend(k..(k + n))`, `sp.extend(tmp.iter())` in reorder_snode_consecutively) for the listed IndexSet
+    variables.  `IndexSet::extend` inserts the yielded items one after the other (indexmap documentation: equivalent to calling insert for
+    each of them in order); the generic `Extend::extend` has no Verus specification, so the unit declares the two instances used
+    (a usize range; the elements of a slice by reference) on its stand-in with exactly that ASSUMED meaning.  Y is a slice reference
+    (`&mut [usize]` re-borrowed shared by the call, as `Y.iter()` does)."""
+    i = 0
+    while i < len(toks):
+        mc = _method_call_at(toks, i, "extend")
+        if mc is not None:
+            r = prev_code(toks, mc[0] - 1)
+            if toks[r].kind == "ident" and toks[r].text in names:
+                inner = toks[mc[1] + 1:mc[2]]
+                d = 0
+                cut = None
+                for q, t in enumerate(inner):
+                    if t.kind == "punct" and t.text in OPEN: d += 1
+                    elif t.kind == "punct" and t.text in CLOSE: d -= 1
+                    elif t.kind == "punct" and t.text == ".." and d == 0: cut = q
+                code = [x for x in inner if x.kind not in ("ws", "comment")]
+                if cut is not None:
+                    new = synth("extend_range(") + _strip_ws(inner[:cut]) + synth(", ") + _strip_ws(inner[cut + 1:]) + synth(")")
+                    toks = toks[:mc[0] + 1] + new + toks[mc[2] + 1:]
+                    fired["setextend"] = fired.get("setextend", 0) + 1
+                    i = mc[0] + 1
+                    continue
+                if (len(code) == 5 and code[0].kind == "ident" and code[1].text == "." and code[2].text == "iter"
+                        and code[3].text == "(" and code[4].text == ")"):
+                    new = synth("extend_slice(") + [code[0]] + synth(")")
+                    toks = toks[:mc[0] + 1] + new + toks[mc[2] + 1:]
+                    fired["setextend"] = fired.get("setextend", 0) + 1
+                    i = mc[0] + 1
+                    continue
+        i += 1
+    return toks
+
+
 RULES["peekslice"] = rule_peekslice
 RULES["mapcollect"] = rule_mapcollect
 RULES["posall"] = rule_posall
@@ -3361,6 +3460,12 @@ def apply_rules(toks, rules, fired):
             toks = rule_fnptr(toks, fired, [b for b in r[6:].split("|") if b])
         elif r.startswith("vecsort:"):
             toks = rule_vecsort(toks, fired, [b for b in r[8:].split("|") if b])
+        elif r.startswith("vecsortr:"):
+            toks = rule_vecsortr(toks, fired, [b for b in r[9:].split("|") if b])
+        elif r.startswith("rangesort:"):
+            toks = rule_rangesort(toks, fired, [b for b in r[10:].split("|") if b])
+        elif r.startswith("setextend:"):
+            toks = rule_setextend(toks, fired, [b for b in r[10:].split("|") if b])
         elif r.startswith("zipnext:"):
             toks = rule_zipnext(toks, fired, [b for b in r[8:].split("|") if b])
         elif r not in RULES:
